@@ -39,10 +39,17 @@ IsInvalidCp(c) == \/ (c >= 1 /\ c <= 8) \/ c = 11 \/ (c >= 14 /\ c <= 31) \/ (c 
 InvalidCount(t) == Cardinality({i \in 1..Len(t) : IsInvalidCp(t[i])})
 
 \* ---------- the one-shot reference ----------
+RECURSIVE NormSeq(_)
+NormSeq(t) == IF t = <<>> THEN <<>>
+              ELSE IF t[1] = CR THEN <<LF>> \o NormSeq(IF Len(t) > 1 /\ t[2] = LF THEN Drop(t, 2) ELSE Tail(t))
+              ELSE <<t[1]>> \o NormSeq(Tail(t))
+\* the same function by halving (never cutting between a CR and its LF), so that chunks of the stock size
+\* (10240 characters) can be normalised without deep recursion
 RECURSIVE Norm(_)
-Norm(t) == IF t = <<>> THEN <<>>
-           ELSE IF t[1] = CR THEN <<LF>> \o Norm(IF Len(t) > 1 /\ t[2] = LF THEN Drop(t, 2) ELSE Tail(t))
-           ELSE <<t[1]>> \o Norm(Tail(t))
+Norm(t) == IF Len(t) <= 16 THEN NormSeq(t)
+           ELSE LET m == Len(t) \div 2
+                    k == IF t[m] = CR /\ t[m + 1] = LF THEN m + 1 ELSE m
+                IN Norm(SubSeq(t, 1, k)) \o Norm(SubSeq(t, k + 1, Len(t)))
 NumLF(t) == Cardinality({i \in 1..Len(t) : t[i] = LF})
 RECURSIVE LastLFFrom(_, _)
 LastLFFrom(t, i) == IF i = 0 THEN 0 ELSE IF t[i] = LF THEN i ELSE LastLFFrom(t, i - 1)
@@ -102,9 +109,16 @@ ReadChunk(s, data) ==
 \* client operations: o = [k, set, opp, acc]
 CharOp == [k |-> "char", set |-> <<>>, opp |-> FALSE, acc |-> <<>>]
 UntilOp(set, opp) == [k |-> "until", set |-> set, opp |-> opp, acc |-> <<>>]
-RECURSIVE MatchLen(_, _, _, _)
-MatchLen(ch, i, S, opp) == IF i >= Len(ch) THEN 0
-                           ELSE IF (ch[i + 1] \in S) = opp THEN 1 + MatchLen(ch, i + 1, S, opp) ELSE 0
+\* index of the first character in ch[lo..hi] that is outside the class (0 if none), by halving so that a run of
+\* thousands of characters (a whole stock-size chunk of text) needs no deep recursion
+RECURSIVE FirstOut(_, _, _, _, _)
+FirstOut(ch, lo, hi, S, opp) ==
+    IF lo > hi THEN 0
+    ELSE IF hi - lo < 8 THEN (IF (ch[lo] \in S) # opp THEN lo ELSE FirstOut(ch, lo + 1, hi, S, opp))
+    ELSE LET m == (lo + hi) \div 2  l == FirstOut(ch, lo, m, S, opp) IN
+         IF l # 0 THEN l ELSE FirstOut(ch, m + 1, hi, S, opp)
+\* number of consecutive characters of the class from offset i on (what the regular expression matches)
+MatchLen(ch, i, S, opp) == LET b == FirstOut(ch, i + 1, Len(ch), S, opp) IN IF b = 0 THEN Len(ch) - i ELSE b - i - 1
 
 \* run the operation on the current chunk: either it completes, or the chunk is used up and a read is needed
 Drive(s, o) ==
